@@ -60,14 +60,14 @@ OBL = [
     dict(id="get-path", fn=r"^lms::signing::InMemoryLmsSignature::get_path$", site=r"(assert:Overflow:(Mul|Add)|call:core::slice::index::index)", operand=None,
          reason="called with i < h only: node_num < 2^(h+1) by the leaf-range check and halves every round; authentication_path holds n*h bytes",
          requires=["GF-LEAF", "node-number-below-2-pow-h-plus-1", "path-walk-halves", "auth-path-width"]),
-    dict(id="path-walk-counter", fn=r"^lms::verify::generate_public_key_candidate$", site=r"assert:Overflow:Add", operand=r"^i,1$",
+    dict(id="path-walk-counter", fn=r"^lms::verify::generate_public_key_candidate$", site=r"assert:Overflow:Add", operand=r"^\w+,1$",
          reason="i counts the rounds of the halving loop (< 32 rounds for a u32 node number)",
          requires=["path-walk-halves"]),
     # ---------------- digits --------------------------------------------------------------------
     dict(id="coef-index", fn=r"^util::coef::coef$", site=r"assert:BoundsCheck", operand=None,
          reason="index = floor(i*w/8) with i < p; the byte string is digest||checksum (n+2 bytes) for i < p and the digest (n bytes) for i < 8n/w",
          requires=["T-COEF", "digit-callers-bounded"]),
-    dict(id="iter-sum", fn=r"^lm_ots::signing::LmotsSignature::sign_core::\{closure#0\}$", site=r"assert:Overflow:Add", operand=r"^sum,",
+    dict(id="iter-sum", fn=r"^lm_ots::signing::LmotsSignature::sign_core::\{closure#0\}$", site=r"assert:Overflow:Add", operand=r"^\w+,",
          reason="sum of p digits each < 2^w: p*(2^w-1) <= 65535 for every parameter row",
          requires=["T-ITERSUM"]),
     dict(id="hash-iterations", fn=r"^hss::hss_sign_core$", site=r"assert:Overflow:Add", operand=r"hash_iterations",
@@ -96,7 +96,7 @@ OBL = [
     dict(id="heights-sum", fn=r"^hss::reference_impl_private_key::CompressedUsedLeafsIndexes::increment$", site=r"call:core::iter::traits::iterator::Iterator::sum", operand=None,
          reason="sum of at most MAX_ALLOWED_HSS_LEVELS heights, each <= 25, in a u32",
          requires=["T-HEIGHTSUM"]),
-    dict(id="shl-minus-one", fn=r"^hss::reference_impl_private_key::CompressedUsedLeafsIndexes::increment::\{closure#1\}$", site=r"assert:Overflow:Sub", operand=r"^total,1$",
+    dict(id="shl-minus-one", fn=r"^hss::reference_impl_private_key::CompressedUsedLeafsIndexes::increment::\{closure#1\}$", site=r"assert:Overflow:Sub", operand=r"^\w+,1$",
          reason="the closure receives the Some payload of 1u64.checked_shl(h), which is 1 << h >= 1",
          requires=["closure-arg-is-checked-shl-of-one"]),
     dict(id="child-seed-inc", fn=r"^hss::seed_derive::SeedDerive::seed_derive$", site=r"assert:Overflow:Add", operand=r"child_seed,1",
